@@ -13,12 +13,14 @@ structure Good (a a' : Acc) (ex : Exit) : Prop where
   inv : Inv a'.st
   parents : LowerL a'.st.parents a.st.parents
   hard : a'.st.cur.hard = a.st.cur.hard
+  inh : a'.st.cur.inhCpu = a.st.cur.inhCpu ∧ a'.st.cur.inhMem = a.st.cur.inhMem
   live : (∀ r, ex ≠ .killed r) → a'.st.cur.live = true
   killed : ∀ r, ex = .killed r → a'.st.cur.status = StatusKilled
   truthful : (∀ r ∈ a.results, Truthful r) → ∀ r ∈ a'.results, Truthful r
 
 theorem Good.trans {a b c : Acc} {e1 : Exit} {e2 : Exit} (h1 : Good a b e1) (h2 : Good b c e2) : Good a c e2 :=
-  ⟨h2.inv, h2.parents.trans h1.parents, h2.hard.trans h1.hard, h2.live, h2.killed,
+  ⟨h2.inv, h2.parents.trans h1.parents, h2.hard.trans h1.hard,
+   ⟨h2.inh.1.trans h1.inh.1, h2.inh.2.trans h1.inh.2⟩, h2.live, h2.killed,
    fun h => h2.truthful (h1.truthful h)⟩
 
 theorem live_of_status {f : Frame} (h : f.status = StatusLive) : f.live = true := by
@@ -77,6 +79,17 @@ theorem local_hard {s : St} (o : Op) (ho : localOp o = true) : (step s o).1.cur.
   | relMem n => exact (releaseStack_lower s.cur s.parents n).1.same.1
   | stop l => exact (setStop_same s.cur l).1
   | due => rfl
+
+theorem local_inh {s : St} (o : Op) (ho : localOp o = true) :
+    (step s o).1.cur.inhCpu = s.cur.inhCpu ∧ (step s o).1.cur.inhMem = s.cur.inhMem := by
+  cases o with
+  | push d => cases ho
+  | pop => cases ho
+  | reqCpu n => exact requireCPU_inh s.cur n
+  | reqMem n => exact requireMem_inh s.cur n
+  | relMem n => exact (releaseStack_lower s.cur s.parents n).1.inh
+  | stop l => exact setStop_inh s.cur l
+  | due => exact ⟨rfl, rfl⟩
 
 theorem inv_setError {s : St} (h : Inv s) : Inv (setError s) := by
   obtain ⟨hc, hch⟩ := h
@@ -151,7 +164,7 @@ mutual
   theorem good_body (a : Acc) (body : List Item) (hw : wfBody body = true) (hi : Inv a.st)
       (hl : a.st.cur.live = true) : Good a (runBody a body).1 (runBody a body).2 := by
     match body with
-    | [] => exact ⟨hi, LowerL.refl _, rfl, fun _ => hl, (fun _ h => nomatch h), fun h => h⟩
+    | [] => exact ⟨hi, LowerL.refl _, rfl, ⟨rfl, rfl⟩, fun _ => hl, (fun _ h => nomatch h), fun h => h⟩
     | it :: rest =>
       have hw' : it.wf = true ∧ wfBody rest = true := by
         have := hw; unfold wfBody at this; simpa using this
@@ -171,21 +184,22 @@ mutual
   theorem good_item (a : Acc) (it : Item) (hw : it.wf = true) (hi : Inv a.st)
       (hl : a.st.cur.live = true) : Good a (runItem a it).1 (runItem a it).2 := by
     match it with
-    | .err => exact ⟨hi, LowerL.refl _, rfl, fun _ => hl, (fun _ h => nomatch h), fun h => h⟩
+    | .err => exact ⟨hi, LowerL.refl _, rfl, ⟨rfl, rfl⟩, fun _ => hl, (fun _ h => nomatch h), fun h => h⟩
     | .op o =>
       have ho : localOp o = true := by unfold Item.wf at hw; exact hw
       have hs := local_step (s := a.st) o ho hl
       have hinv := inv_step o hi (by cases o <;> first | exact hl | rfl)
       have hh := local_hard (s := a.st) o ho
+      have hin := local_inh (s := a.st) o ho
       unfold runItem
       simp only
       cases hout : (step a.st o).2 with
       | ok =>
-        exact ⟨hinv, hs.1, hh, fun _ => hs.2.1 (by rw [hout]; decide), (fun _ h => nomatch h), fun h => h⟩
+        exact ⟨hinv, hs.1, hh, hin, fun _ => hs.2.1 (by rw [hout]; decide), (fun _ h => nomatch h), fun h => h⟩
       | terminated =>
-        exact ⟨hinv, hs.1, hh, fun h => absurd rfl (h _), fun _ _ => hs.2.2 hout, fun h => h⟩
+        exact ⟨hinv, hs.1, hh, hin, fun h => absurd rfl (h _), fun _ _ => hs.2.2 hout, fun h => h⟩
       | crash =>
-        exact ⟨hinv, hs.1, hh, fun _ => hs.2.1 (by rw [hout]; decide), (fun _ h => nomatch h), fun h => h⟩
+        exact ⟨hinv, hs.1, hh, hin, fun _ => hs.2.1 (by rw [hout]; decide), (fun _ h => nomatch h), fun h => h⟩
     | .call d body =>
       have hwb : wfBody body = true := by unfold Item.wf at hw; exact hw
       have hi0 : Inv (push a.st d) := inv_step (.push d) hi hl
@@ -197,6 +211,9 @@ mutual
         rw [hrun]
         have hs := charged_same p' (afterBody ex a1.st).cur
         have hh3 : (charged p' (afterBody ex a1.st).cur).hard = a.st.cur.hard := hs.1.trans hlp.same.1
+        have hin3 : (charged p' (afterBody ex a1.st).cur).inhCpu = a.st.cur.inhCpu ∧
+            (charged p' (afterBody ex a1.st).cur).inhMem = a.st.cur.inhMem :=
+          ⟨(charged_inh _ _).1.trans hlp.inh.1, (charged_inh _ _).2.trans hlp.inh.2⟩
         have hinv3 : Inv ⟨charged p' (afterBody ex a1.st).cur, ps'⟩ :=
           ⟨charged_frameOk hc2 hp hcp, chainInv_congr hs.1 hs.2.2.1 hrest⟩
         have hlive3 : (charged p' (afterBody ex a1.st).cur).live = true := by
@@ -208,9 +225,9 @@ mutual
           unfold Frame.popped Frame.live; rw [hk]; simp [StatusKilled, StatusLive]; exact hk
         unfold afterPop
         cases ex with
-        | crashed => exact ⟨hinv3, hlps, hh3, fun _ => hlive3, (fun _ h => nomatch h), gb.truthful⟩
+        | crashed => exact ⟨hinv3, hlps, hh3, hin3, fun _ => hlive3, (fun _ h => nomatch h), gb.truthful⟩
         | done =>
-          refine ⟨hinv3, hlps, hh3, fun _ => hlive3, (fun _ h => nomatch h), fun h r hr => ?_⟩
+          refine ⟨hinv3, hlps, hh3, hin3, fun _ => hlive3, (fun _ h => nomatch h), fun h r hr => ?_⟩
           rcases List.mem_cons.mp hr with rfl | hr
           · have hlv := gb.live (fun _ h => nomatch h)
             refine ⟨fun _ => ?_, (fun h => nomatch h), (fun h => by obtain ⟨_, h⟩ := h; cases h), (fun h => nomatch h)⟩
@@ -219,7 +236,7 @@ mutual
             unfold Frame.popped; rw [if_pos hlv]
           · exact gb.truthful h r hr
         | error =>
-          refine ⟨hinv3, hlps, hh3, fun _ => hlive3, (fun _ h => nomatch h), fun h r hr => ?_⟩
+          refine ⟨hinv3, hlps, hh3, hin3, fun _ => hlive3, (fun _ h => nomatch h), fun h r hr => ?_⟩
           rcases List.mem_cons.mp hr with rfl | hr
           · refine ⟨(fun h => nomatch h), fun _ => ?_, (fun h => by obtain ⟨_, h⟩ := h; cases h), (fun h => nomatch h)⟩
             show (afterBody Exit.error a1.st).cur.popped.status = StatusError
@@ -232,7 +249,7 @@ mutual
               (afterBody (Exit.killed res) a1.st).cur.popped res with e | ⟨e, _, _⟩
           · rw [e]
             simp only
-            refine ⟨hinv3, hlps, hh3, fun _ => hlive3, (fun _ h => nomatch h), fun h r hr => ?_⟩
+            refine ⟨hinv3, hlps, hh3, hin3, fun _ => hlive3, (fun _ h => nomatch h), fun h r hr => ?_⟩
             rcases List.mem_cons.mp hr with rfl | hr
             · exact ⟨(fun h => nomatch h), (fun h => nomatch h), fun _ => hpoppedK res rfl, (fun h => nomatch h)⟩
             · exact gb.truthful h r hr
@@ -241,7 +258,7 @@ mutual
             have hk : Inv ⟨(charged p' (afterBody (Exit.killed res) a1.st).cur).kill, ps'⟩ :=
               ⟨frameOk_kill hinv3.1, chainInv_congr (c := charged p' (afterBody (Exit.killed res) a1.st).cur)
                 (ps := ps') rfl rfl hinv3.2⟩
-            exact ⟨hk, hlps, hh3, fun h => absurd rfl (h res), fun _ _ => rfl, gb.truthful⟩
+            exact ⟨hk, hlps, hh3, hin3, fun h => absurd rfl (h res), fun _ _ => rfl, gb.truthful⟩
 end
 
 end GoluaVerif.Proofs.CallCtx
